@@ -44,6 +44,10 @@ type Case struct {
 	// OddCounts: the destination accepts every line but reports a byte count different from len(p)
 	// with a nil error (a decorating / prefixing writer): not a failure, nothing may be lost
 	OddCounts bool `json:"odd_counts,omitempty"`
+	// Echo: with >= 2 instances, the destination of instance 0 writes a copy of every line it receives
+	// to instance 1 at ConditionalLevel (an audit trail fed from inside a destination): instance 1
+	// starts holding lines while instance 0 is in the middle of its replay
+	Echo bool `json:"echo_into_second_instance,omitempty"`
 }
 
 type out struct {
@@ -57,6 +61,7 @@ type dest struct {
 	calls  int
 	failAt map[int]bool
 	odd    bool
+	echo   func(line []byte)
 }
 
 var errDest = errors.New("destination refused the line")
@@ -69,6 +74,9 @@ func (d *dest) take(l int, p []byte) (int, error) {
 		return 0, errDest
 	}
 	d.log = append(d.log, out{l, string(p)})
+	if d.echo != nil {
+		d.echo(p)
+	}
 	if d.odd {
 		return []int{len(p) - 1, len(p) + 6, 0, len(p)}[d.calls%4], nil
 	}
@@ -125,29 +133,54 @@ func run(c *Case) (string, bool) {
 		in.held = nil
 		in.triggered = true
 	}
+	modelWrite := func(in *inst, L int, line string) {
+		if !in.triggered && L >= c.Trig {
+			flush(in)
+		}
+		if !in.triggered && L <= c.Cond {
+			in.held = append(in.held, out{lv(L), line})
+		} else {
+			in.want = append(in.want, out{lv(L), line})
+		}
+	}
+	echoLevel := c.Cond
+	if echoLevel == 10 {
+		echoLevel = 9
+	}
+	// what instance 0 delivered during this op was echoed, in that order, into instance 1
+	echoModel := func(in *inst, before int) {
+		if !c.Echo || len(insts) < 2 || in != insts[0] {
+			return
+		}
+		for _, o := range in.want[before:] {
+			modelWrite(insts[1], echoLevel, "echo:"+o.Line)
+		}
+	}
+	if c.Echo && len(insts) >= 2 {
+		insts[0].d.echo = func(line []byte) {
+			insts[1].tw.WriteLevel(zerolog.Level(echoLevel), append([]byte("echo:"), line...))
+		}
+	}
 	for i, op := range c.Ops {
 		in := insts[op.I]
 		switch op.K {
 		case "w":
+			before := len(in.want)
 			n, err := in.tw.WriteLevel(zerolog.Level(op.L), op.Line)
 			if err != nil || n != len(op.Line) && !c.OddCounts {
 				return fmt.Sprintf("op %d: WriteLevel returned (%d, %v) for a %d-byte line", i, n, err, len(op.Line)), nontrivial
 			}
-			if !in.triggered && op.L >= c.Trig {
-				flush(in)
-			}
-			if !in.triggered && op.L <= c.Cond {
-				in.held = append(in.held, out{lv(op.L), string(op.Line)})
-			} else {
-				in.want = append(in.want, out{lv(op.L), string(op.Line)})
-			}
+			modelWrite(in, op.L, string(op.Line))
+			echoModel(in, before)
 		case "trigger":
+			before := len(in.want)
 			if err := in.tw.Trigger(); err != nil {
 				return fmt.Sprintf("op %d: Trigger returned %v", i, err), nontrivial
 			}
 			if !in.triggered {
 				flush(in)
 			}
+			echoModel(in, before)
 		case "close":
 			in.tw.Close()
 			in.held = nil
@@ -371,8 +404,12 @@ func TestRapid(t *testing.T) {
 			c.Trig = rapid.SampledFrom([]int{1, 2, 3, 4, 0}).Draw(rt, "trig2")
 		}
 		c.OddCounts = rapid.IntRange(0, 4).Draw(rt, "odd") == 0
+		c.Echo = rapid.IntRange(0, 3).Draw(rt, "echo") == 0
 		n := rapid.IntRange(1, 40).Draw(rt, "nops")
 		ninst := rapid.SampledFrom([]int{1, 1, 2, 3}).Draw(rt, "ninst")
+		if c.Echo && ninst == 1 {
+			ninst = 2
+		}
 		for i := 0; i < n; i++ {
 			switch k := rapid.SampledFrom([]string{"w", "w", "w", "w", "w", "w", "trigger", "close", "new"}).Draw(rt, "op"); k {
 			case "w":
